@@ -123,7 +123,8 @@ impl SegBuilder {
     self.segs.push(SessionResult { kind, start: self.start, end, abort: abort.map(|info| Abort { kind: classify(&info), info }), roots_out: std::mem::take(&mut self.roots_out), check_errors: vec![] });
     if !last {
       // The caller caught the abort and goes on using the same session.
-      self.start = with_sim(|s| { s.op_stack.clear(); s.exec_stack.clear(); s.log.push(Ev::Continue); s.log.len() });
+      // (the runaway guard of the interpreter counts executions per build: every retry re-executes what the abort left without output)
+      self.start = with_sim(|s| { s.op_stack.clear(); s.exec_stack.clear(); s.execs_this_session = 0; s.log.push(Ev::Continue); s.log.len() });
     }
   }
 }
@@ -1517,9 +1518,11 @@ impl<'a> Runner<'a> {
               // path to the writer was re-executed and no longer requires the writer: pie does not notice that
               // (recorded finding). A reader that executed in this session has no such excuse.
               // The intermediate task may also have been re-executed in an earlier session than the one that now
-              // validates the reader: any session after the reader's own latest execution counts.
+              // validates the reader: any session from the reader's own latest execution on counts (in that very
+              // session it is the other recorded finding, path-through-record-replaced-later-in-build, seen again
+              // when a later session validates the reader).
               let x_session = self.ledger[x].as_ref().map(|e| e.session).unwrap_or(usize::MAX);
-              let intermediate_reexecuted = (0..ntasks).any(|m| m != x && m != *w && self.ledger[m].as_ref().map(|e| e.session > x_session || executed.contains(&m)).unwrap_or(false) && self.prev[m].as_ref().map(|e| !e.req_issued.is_empty()).unwrap_or(false));
+              let intermediate_reexecuted = (0..ntasks).any(|m| m != x && m != *w && self.ledger[m].as_ref().map(|e| e.session >= x_session || executed.contains(&m)).unwrap_or(false) && self.prev[m].as_ref().map(|e| !e.req_issued.is_empty()).unwrap_or(false));
               // A reader (or writer) that executed in this build was checked by pie against the records as they
               // were at that moment; when the path it found ran through the not yet replaced record of a task that was
               // re-executed later in the same build (and then no longer required the writer), the build returns with
